@@ -1,5 +1,7 @@
 import CoercionModel.Proofs.Attempts
 import CoercionModel.Props.C05
+import CoercionModel.Model.SkeletonsRest
+import CoercionModel.Generated.F14
 set_option linter.unusedSimpArgs false
 /-
   C08 — Persist-before-act: durable state leads side effects; no visible regress.
@@ -105,5 +107,9 @@ example : persistBeforeAct [.write .running 0, .enter 0, .exit 0, .write .runnin
 example : persistBeforeAct [.enter 0, .write .running 0] = false := by decide              -- the monitor does fire
 example : persistBeforeAct [.write .running 0, .enter 0, .exit 0, .enter 1] = false := by decide
 example : noRegress [.running, .completed, .running] = false := by decide
+
+/-- the engine functions this property's model depends on only through their effects (group `actionRest` of
+    Model/SkeletonsRest) still have the shape they were read with (regenerated from /repo on every run) -/
+theorem facts_skeleton_rest : Generated.F14.actionRest = SkeletonsRest.actionRest := by rfl
 
 end Coercion.C08
